@@ -45,9 +45,10 @@ func main() { vlib.Run("C23", run) }
 const enumAlphabet = 27 // see enumOp
 
 func run(c *vlib.Ctx) {
-	c.Rule("stratum `rand`: histories of 2-8 ops {Pin(recursive|direct,name), PinWithMode, Unpin, Update(+-unpin), Flush} (autosync on or off) over a random DAG of 4-7 nodes with shared subtrees; stratum `enum2` (x autosync on/off; and `enum3` in thorough, crash points of the last op only): ALL histories of length 2 (3) over a 27-op alphabet {Pin x 3 CIDs x rec/direct x 2 names, Unpin x 3, Update x 6 pairs x +-unpin} on the fixed DAG c2->{c1,c0}, c1->c0; in every history every prefix of every op's recorded write list is replayed and reopened, and every prefix of the repair writes of that reopen again; distinct = FNV of DAG+op list; non-trivial = the history had a crash point whose reopen performed index repair writes AND an op that deleted a pin record AND an op with >= 4 writes")
+	c.Rule("stratum `rand`: histories of 2-8 ops {Pin(recursive|direct,name), PinWithMode, Unpin, Update(+-unpin), Flush} (autosync on or off) over a random DAG of 4-7 nodes with shared subtrees; stratum `enumU`: ALL histories Pin(x, rec|direct, n1); Pin(y, rec|direct, n2); Update(a -> b, +-unpin) x autosync on/off on the same DAG (864; crash points of the Update: includes Update onto a directly pinned `to`, the only op during which two records of one CID coexist); stratum `enum2` (x autosync on/off; and `enum3` in thorough, crash points of the last op only): ALL histories of length 2 (3) over a 27-op alphabet {Pin x 3 CIDs x rec/direct x 2 names, Unpin x 3, Update x 6 pairs x +-unpin} on the fixed DAG c2->{c1,c0}, c1->c0; in every history every prefix of every op's recorded write list is replayed and reopened, and every prefix of the repair writes of that reopen again; distinct = FNV of DAG+op list; non-trivial = the history had a crash point whose reopen performed index repair writes AND an op that deleted a pin record AND an op with >= 4 writes")
 	c.Cases("rand", c.N(120, 2000), randHistory)
 	c.Cases("enum2", 2*enumAlphabet*enumAlphabet, func(k *vlib.Case) { enumHistory(k, 2) }) // x autosync on/off
+	c.Cases("enumU", 2*6*6*12, enumUpdateHistory)                                           // Pin; Pin; Update (crash points of the Update) x autosync
 	if !c.Quick() {
 		c.Cases("enum3", enumAlphabet*enumAlphabet*enumAlphabet, func(k *vlib.Case) { enumHistory(k, 3) })
 	}
@@ -266,6 +267,23 @@ func checkRaw(state map[string][]byte) (problems []string, nrec int) {
 	return problems, len(recs)
 }
 
+// twoRecords reports whether some CID has more than one pin record in state.
+func twoRecords(state map[string][]byte) bool {
+	seen := map[string]bool{}
+	for k, v := range state {
+		if strings.HasPrefix(k, "/pins/pin/") {
+			var rp rawPin
+			if cbor.UnmarshalAtlased(cbor.DecodeOptions{}, v, &rp, rawAtl) == nil {
+				if seen[rp.Cid.KeyString()] {
+					return true
+				}
+				seen[rp.Cid.KeyString()] = true
+			}
+		}
+	}
+	return false
+}
+
 // recordKeysFor lists the keys of the pin records for c in a state, with their mode.
 func recordKeysFor(state map[string][]byte, c cid.Cid) map[string]int {
 	o := map[string]int{}
@@ -477,6 +495,9 @@ func (w *world) crashPoint(o op, opErr error, pre map[string][]byte, ws []write,
 			break
 		}
 	}
+	if twoRecords(st) {
+		k.C.Count("crash_states_with_two_records_of_one_cid", 1)
+	}
 	final := d2.snapshot()
 	problems, _ := checkRaw(final)
 	seen := map[string]bool{}
@@ -610,6 +631,7 @@ func randHistory(k *vlib.Case) {
 	w := newWorld(k, links, r)
 	var ops []op
 	pinned := []int{}
+	var recPinned, dirPinned []int // as requested by the ops so far (not necessarily successful)
 	pick := func() int {
 		if len(pinned) > 0 && r.Chance(2, 3) {
 			return pinned[r.Intn(len(pinned))]
@@ -623,8 +645,14 @@ func randHistory(k *vlib.Case) {
 		switch {
 		case x < 35:
 			a := pick()
-			ops = append(ops, op{kind: "pin", a: a, flag: r.Chance(2, 3), name: name})
+			rec := r.Chance(2, 3)
+			ops = append(ops, op{kind: "pin", a: a, flag: rec, name: name})
 			pinned = append(pinned, a)
+			if rec {
+				recPinned = append(recPinned, a)
+			} else {
+				dirPinned = append(dirPinned, a)
+			}
 		case x < 45:
 			a := pick()
 			md := ipfspin.Recursive
@@ -633,12 +661,24 @@ func randHistory(k *vlib.Case) {
 			}
 			ops = append(ops, op{kind: "pinmode", a: a, mode: md, name: name})
 			pinned = append(pinned, a)
+			if md == ipfspin.Recursive {
+				recPinned = append(recPinned, a)
+			} else {
+				dirPinned = append(dirPinned, a)
+			}
 		case x < 65:
 			ops = append(ops, op{kind: "unpin", a: pick(), flag: r.Chance(3, 4)})
 		case x < 92:
-			b := r.Intn(n)
-			ops = append(ops, op{kind: "update", a: pick(), b: b, flag: r.Bool()})
+			a, b := pick(), r.Intn(n)
+			if len(recPinned) > 0 && r.Chance(3, 4) {
+				a = recPinned[r.Intn(len(recPinned))]
+			}
+			if len(dirPinned) > 0 && r.Bool() { // Update onto a directly pinned `to`: two records of one CID coexist during the op
+				b = dirPinned[r.Intn(len(dirPinned))]
+			}
+			ops = append(ops, op{kind: "update", a: a, b: b, flag: r.Bool()})
 			pinned = append(pinned, b)
+			recPinned = append(recPinned, b)
 		default:
 			ops = append(ops, op{kind: "flush"})
 		}
@@ -659,6 +699,22 @@ func enumOp(i int) op {
 		pairs := [][2]int{{0, 1}, {1, 0}, {1, 2}, {2, 1}, {0, 2}, {2, 0}}
 		return op{kind: "update", a: pairs[j%6][0], b: pairs[j%6][1], flag: j/6 == 0}
 	}
+}
+
+// enumUpdateHistory: Pin(x, rec|direct, "n1"); Pin(y, rec|direct, "n2");
+// Update(a -> b, +-unpin); autosync on/off. Crash points of the Update only
+// (those of the two pins are covered by enum2).
+func enumUpdateHistory(k *vlib.Case) {
+	w := newWorld(k, [][]int{{}, {0}, {1, 0}}, nil)
+	idx := k.Index
+	p1 := op{kind: "pin", a: idx % 3, flag: (idx/3)%2 == 0, name: "n1"}
+	idx /= 6
+	p2 := op{kind: "pin", a: idx % 3, flag: (idx/3)%2 == 0, name: "n2"}
+	idx /= 6
+	u := enumOp(15 + idx%12)
+	idx /= 12
+	w.runHistory([]op{p1, p2, u}, idx == 0, true)
+	w.finish()
 }
 
 func enumHistory(k *vlib.Case, length int) {
